@@ -127,6 +127,7 @@ package encoding
 //@   ensures[C03] err != nil && !q.r.short && 1 <= tkind(telemt(rtype(v))) && tkind(telemt(rtype(v))) <= 14 ==> le32(q.r.data, old(q.r.pos)) > 4096 || (le32(q.r.data, old(q.r.pos)) > old(v.rcap) && !rset(v))
 //@   call MakeSlice#1: assert[C07] arg1 <= 4096
 //@   call MakeSlice#2: assert[C07] arg1 <= 4096
+//@   call MakeSlice#2: cover arg1 == 4096
 //@   loop 1:
 //@     invariant 0 <= i && i <= l && v.rlen == l && u32(int32(l)) == le32(q.r.data, old(q.r.pos)) && 0 <= q.r.pos && q.r.pos <= q.r.len && q.r.pos >= old(q.r.pos) + 4
 //@     invariant forall rr io.Reader {rr.pos} :: rr.pos >= old(rr.pos) && (old(rr.pos) <= rr.len ==> rr.pos <= rr.len)
